@@ -18,7 +18,7 @@ def jobs(pid, tier, seed):
     out = [{"kind": "cfg", "seed": seed * 1000003 + i, "nvar": 4 if tier == "quick" else len(VARIANTS)} for i in range(n)]
     out += [{"kind": "list", "seed": seed * 1000003 + 500000 + i} for i in range(n)]
     out += [{"kind": k, "seed": seed * 1000003 + 5000000 + i, "nvar": 4 if tier == "quick" else len(VARIANTS), "life": 1}
-            for i in range(n) for k in ("cfg", "list")]
+            for i in range(3 * n) for k in (("cfg", "list") if i < n else ("cfg",))]
     out += [{"kind": "bulk_list", "n": nn, "allow_list": a} for nn in (1010, 1200) for a in (1, 0)]
     for name, params in scenarios.directed_for(pid, tier):
         out.append({"kind": "directed", "name": name, "params": params})
